@@ -16,43 +16,43 @@ EX = "exploration"
 
 # id: (level, technique, level text, level note, design ref, engine)
 CHECKS = {
- "C01": (MC, "explicit-state BFS over (real parser control state x RFC 8259 PDA), all 256 bytes per state; deviation-bounded reader answers (io.EOF with the last chunk, one empty read), bytes behind the input slice, byte-order-mark family",
+ "C01": (MC, "explicit-state BFS over (real parser control state x RFC 8259 PDA), all 256 bytes per state; deviation-bounded reader answers (io.EOF with the last chunk, one empty read), bytes behind the input slice, byte-order-mark family; scale family (documents of 7..129 elements / members / levels and strings of 7..4097 bytes, valid and damaged at one place)",
          "Every reachable product state of each strict front-end up to nesting D (3 quick / 5 thorough) is visited and every one of the 256 byte values, plus end of input, is executed on the real code from it and compared with a reference pushdown recogniser; the []byte entry point is run on every explored input. Within the bound this is a complete decision of the accept set, which no finite list of documents gives.",
          "Trusted: the jsonref recogniser (cross-checked against encoding/json.Valid on every explored input), the abstract state key (mode, nextMode, literal index, container stack shape, number threshold flags), nesting bound D.",
          "DESIGN.md §2.1, §3 C01", "bytemc"),
- "C02": (EX, "bounded-exhaustive enumeration of number literals / string escape sequences / small trees through ten front-end paths (parsers and tokenizers of oj, gen, sen; []byte and 1-byte reader) against a big.Rat + encoding/json reference",
+ "C02": (EX, "bounded-exhaustive enumeration of number literals / string escape sequences / small trees through ten front-end paths (parsers and tokenizers of oj, gen, sen; []byte and 1-byte reader) against a big.Rat + encoding/json reference; scale family through every front-end; fractions around the 2^64 wrap of digits + divisor",
          "Every literal of the number family (sign x integer digit patterns of length 1..21 incl. the int64/uint64 boundaries x fraction with 0..21 leading zeros x exponent forms), every string of <=2 (quick) / <=3 (thorough) escape items (all 65536 single \\uXXXX escapes, surrogate pairs, raw invalid bytes) as value and key, and every tree up to 5 nodes is parsed by oj.Parse, 1-byte ParseReader, oj.Tokenize, gen.Parser (both) and sen.Parse and compared with the reference value. The space is a matrix of code paths (threshold digit counts, escape cells), filled completely up to the bound. A string-pair family (two strings per document in five placements, the second over every two-item sequence) checks that nothing one string leaves behind in a front-end shows in the next.",
          "Trusted: strconv.ParseFloat, math/big, encoding/json (cross-checked); valref decoder for non-UTF-8 inputs. Lone surrogates and raw invalid bytes accept several readings.",
          "DESIGN.md §3 C02", "core"),
- "C04": (EX, "bounded-exhaustive enumeration of value trees x writer entry points x option products x WriteLimits against encoding/json + an omit accept-set reference",
+ "C04": (EX, "bounded-exhaustive enumeration of value trees x writer entry points x option products x WriteLimits against encoding/json + an omit accept-set reference; scale family; table columns of which one name begins the others",
          "Every tree up to the node bound over a leaf alphabet with one representative per string/number class (simple and gen form), deep single-child chains and the aligned-table family is written by every JSON writer entry point under the full product of boolean options (+ Width/MaxDepth/Align for pretty) and every WriteLimit; output must be valid JSON, decode to the tree minus exactly the omitted members, be byte-identical when streamed, and sorted/deterministic under Sort. Further families: every string of <=2/3 bytes over nine byte classes as value and key; deep nestings with siblings at every depth x indent around the fixed indentation tables (Sort, Tab).",
          "Trusted: encoding/json as JSON oracle; OmitEmpty read as an accept-set (DESIGN §2.5); map orders repeated, not enumerated.",
          "DESIGN.md §3 C04", "core"),
- "C10": (EX, "bounded-exhaustive enumeration of strings over SEN byte classes + reserved family x 4 contexts x 8 writers x options, round trip through sen.Parse",
+ "C10": (EX, "bounded-exhaustive enumeration of strings over SEN byte classes + reserved family x 4 contexts x 8 writers x options, round trip through sen.Parse; scale family; table columns of which one name begins the others",
          "All strings of <=2 (quick) / <=3 (thorough) class representatives (classes recomputed from the current SEN tables) plus the reserved family, as top-level value, array element, member value and member key, numbers and small trees, through every SEN writer entry point and option vector; sen.Parse of the text must give back an equal tree (strings stay strings, keys exact).",
          "Trusted: byte-class partition; a fresh sen.Parser per case; numbers by value.",
          "DESIGN.md §3 C10", "core"),
- "C11": (EX, "bounded-exhaustive enumeration of path expressions x documents x data representations; every evaluator compared with Get on the same data and Get compared across representations",
+ "C11": (EX, "bounded-exhaustive enumeration of path expressions x documents x data representations; every evaluator compared with Get on the same data and Get compared across representations; lists of 66 with pending siblings under paths of three fragments; union members counted from the end",
          "Every sequence of <=2 (quick) / <=3 (thorough) fragments of the shared path alphabet on every document of the corpus, held as simple data, gen nodes, typed slices, Go arrays, struct values, pointers to structs and user Keyed/Indexed collections (all key orders): Has, First/FirstFound, Locate (with every max), Expr.Walk, GetNodes and FirstNode are compared with Get on the same representation (membership, order where defined, normalised paths whose own Get yields the element, locations equal to pathref's), and Get is compared across representations. Failing cases are shrunk and keyed by (evaluator, fragment, representation class, position, bound class, discrepancy).",
          "Trusted: Get is the reference (C05 checks Get itself); pathref for locations; order only where no multi-member object or descent is involved; failures consistent with the two implemented readings named in known_findings.txt are keyed as those findings, everything else keeps its own cell.",
          "DESIGN.md §3 C11", "core"),
- "C13": (EX, "bounded-exhaustive enumeration of (path, document, operation, value / modifier) on simple and gen data against a frame-condition oracle built from pathref's selection",
+ "C13": (EX, "bounded-exhaustive enumeration of (path, document, operation, value / modifier) on simple and gen data against a frame-condition oracle built from pathref's selection; lists of 66 with pending siblings under paths of three fragments",
          "Every sequence of <=2 (quick) / <=3 (thorough) fragments x every document x Set/SetOne/Del/DelOne/Remove/RemoveOne/Modify/ModifyOne (and Must variants) x 5 replacement values x 5 modifier functions on simple and gen data: the selection is the pathref reading that agrees with Get on the before-state; afterwards every location outside it is unchanged, every selected location holds the new value / is gone, *One forms change at most one location, Set creates only along child/index paths, impossible requests return errors, nothing panics, simple and gen agree.",
          "Trusted: pathref + scriptref and Get on the before-state; creation cases judged by a weaker oracle; nested selections accepted in any visiting order; failures that are exactly the inclusive slice reading (pathref.Variant.Inclusive) are keyed as that one finding.",
          "DESIGN.md §3 C13", "core"),
- "C12": (EX, "exhaustive operator x operand-kind x operand-kind matrix and bounded logic trees against a three-valued reference evaluator",
+ "C12": (EX, "exhaustive operator x operand-kind x operand-kind matrix and bounded logic trees against a three-valued reference evaluator; 2^53 neighbours; chains of three and four many-valued comparisons",
          "Every operator x left operand x right operand (constants and @-paths, simple and gen data, missing / single / multi-valued paths), built through the constructors and by parsing the text, plus every &&/||/! tree up to depth 2 (quick) / 3 (thorough) on an element corpus; result must equal the reference, never panic, and Script.Match must equal filter membership.",
          "Trusted: scriptref (answers 'any' where the documentation leaves the result open); operator list read from the code.",
          "DESIGN.md §3 C12", "core"),
- "C14": (EX, "bounded-exhaustive enumeration of jp.Expr and Equation trees built with the public constructors; print / parse / re-print / evaluate differential",
+ "C14": (EX, "bounded-exhaustive enumeration of jp.Expr and Equation trees built with the public constructors; print / parse / re-print / evaluate differential; chains of three and four operands at the loosest precedence level",
          "Every expression of <=2 (quick) / <=3 (thorough) fragments over a key alphabet with quotes, backslashes, control and non-ASCII characters, and every equation tree up to depth 2/3 over all operator pairs and constant kinds: String()/BracketString() must parse, print identically again and evaluate identically on tailored data; scripts must Match identically on a corpus in which every leaf takes two values.",
          "Trusted: ojg's own Get/Match on both sides (differential, no reference evaluator); smaller-witness subsumption for attribution.",
          "DESIGN.md §3 C14", "core"),
- "C15": (EX, "bounded-exhaustive enumeration of reflect.StructOf types x values x option products x encoders against a reference encoder and encoding/json; BFS over plan-cache first-use orders",
+ "C15": (EX, "bounded-exhaustive enumeration of reflect.StructOf types x values x option products x encoders against a reference encoder and encoding/json; BFS over plan-cache first-use orders; oj.Write repeated with WriteLimit 1 and 7; embedded pointer to a zero struct",
          "Every struct type of <=2 (quick) / <=3 thinned (thorough) fields over 22 field kinds x 6 tag classes x values x the option product is encoded by all encoder entry points; all outputs must denote one tree, equal to the reference encoder (option documentation) and to encoding/json under GoOptions; the cache-history leg explores every first-use order of (type, OmitEmpty, package) from empty caches. Every one-field type is also written through a pointer to a pointer and must give the tree written for the pointer.",
          "Trusted: encref (cross-checked against encoding/json on every case); readings weakened where options.go is silent (see checks/c15/TRIAGE.md).",
          "DESIGN.md §3 C15", "core"),
- "C16": (MC, "explicit-state BFS over recomposer registry states (orders of target types) with each step compared against a fresh recomposer; bounded-exhaustive round trips over StructOf and named types",
+ "C16": (MC, "explicit-state BFS over recomposer registry states (orders of target types) with each step compared against a fresh recomposer; bounded-exhaustive round trips over StructOf and named types; field names of every length and casing; anonymous struct types that agree in a long prefix of their printed form",
          "History leg: state = registry content of one recomposer (private and alt.DefaultRecomposer), alphabet = recompose into each of 9 target type classes (same-named types of two packages, anonymous structs, same-named types declared inside two functions, embedding/field-of types, custom function); BFS over all orders up to length 3/4 with deduplication; every step's output must equal the output on a fresh recomposer. Value leg: Recompose(Decompose(v)), Unmarshal(Marshal(v)), sen round trip for every enumerated type and value.",
          "Trusted: reflect.DeepEqual modulo nil/empty; registry snapshot via reflection; process-wide state also contaminates the fresh run (stated).",
          "DESIGN.md §3 C16", "core"),
@@ -60,7 +60,7 @@ CHECKS = {
          "Every document of the corpus (JSON and SEN text, members in ascending and descending key order) x every single target and ordered pairs of targets over the shared path alphabet (child, index, wildcard, union, slice, descent, trailing filter) x oj.Match / MatchString / MatchLoad (whole, 1-byte, every 2-split) and the sen variants: the callback sequence (copied path, value) must equal the outermost locations pathref selects, in document order, identical for every chunking.",
          "Trusted: pathref + scriptref; the harness's own ordered document model; failing pairs only reported when each target alone passes.",
          "DESIGN.md §3 C17", "core"),
- "C18": (EX, "bounded-exhaustive enumeration of trees x conversions, plus every (copy operation, node position, mutation) aliasing experiment",
+ "C18": (EX, "bounded-exhaustive enumeration of trees x conversions, plus every (copy operation, node position, mutation) aliasing experiment; a 17-digit decimal and an 18-digit fraction among the leaves",
          "Every tree up to the node bound over 30 leaf kinds through Generify/Simplify, GenAlter/Alter, Dup, Decompose, writer equality of gen and simple forms, gen.Parser vs Generify(oj.Parse); for every copying operation every node of copy and original is mutated in five ways and the other side compared with its snapshot. The pretty writers are compared on gen and simple form for every width within 8 columns of the flat width, MaxDepth 1-3, with and without Color; gen.Parser is also read through one-byte reads.",
          "Trusted: kind-exact tree codec; in-place variants only required to preserve the value.",
          "DESIGN.md §3 C18", "core"),
@@ -68,32 +68,32 @@ CHECKS = {
          "Every base tree, every catalogue perturbation at every location (and pairs), every ignore set derived from the perturbed locations (covers / ancestor / sibling / wildcard / below, singles and pairs, both argument orders) through Diff, Compare and Match on simple and gen trees; missed / spurious / wrong-index / compare-inconsistent are judged by diffref under the three-valued scalar relation.",
          "Trusted: diffref; int-vs-float of the same value and instants <2ms apart are open; array tail reading of DESIGN §2.5.",
          "DESIGN.md §3 C19", "core"),
- "C20": (EX, "bounded-exhaustive enumeration of plans (function x arity x argument atoms, nesting depth 1/2, state-changing sequences) x 12 roots against an outcome-set reference",
+ "C20": (EX, "bounded-exhaustive enumeration of plans (function x arity x argument atoms, nesting depth 1/2, state-changing sequences) x 12 roots against an outcome-set reference; a used plan against a plan compiled just now on every root (history oracle); paths built from data; 2^53 neighbours",
          "Every function of asm.FnDocs() (read at run time) x arity 0..4 x argument atoms (+ depth-2 templates in thorough) on 12 roots: Execute never panics, two executions agree, the result is in the reference's outcome set for 37 modelled functions, String()/Simplify() rebuild an equivalent plan, and $.src is untouched unless a documented mutator targets it. Further legs: item independence of each, bodies evaluated with @ bound to a value that is not the root (against the reference), and functions documented to return a copy sharing no storage with their argument.",
          "Trusted: asmref (doc.go is the specification; ambiguous wording yields several acceptable outcomes); masked 'runtime error:' results accepted.",
          "DESIGN.md §3 C20", "core"),
 
- "C03": (MC, "explicit-state BFS + chunk lemma: every (reachable state, short chunk) pair fed at once vs byte-wise with concrete snapshot comparison; joint product agreement of all front-ends; token x split enumeration under every reader answer; every exported entry point x every kind of optional argument",
+ "C03": (MC, "explicit-state BFS + chunk lemma: every (reachable state, short chunk) pair fed at once vs byte-wise with concrete snapshot comparison; joint product agreement of all front-ends; token x split enumeration under every reader answer; every exported entry point x every kind of optional argument; scale family under reads of 1/3/16/64 bytes, splits and the refill; refill sweep (every byte of an element on either side of the 4096-byte refill); every token with one token of every other kind behind it",
          "Leg A decides chunk-independence by induction: for every reachable abstract state of each machine (single and multi-document) and every chunk of length 2..L over one representative per byte class (recomputed from the current tables), feeding the chunk at once and byte by byte must reach the same concrete state and the same final outcome. Leg B runs every input of the oj.Parser product search through all front-ends (whole and byte-wise, callback and channel) and requires equal trees or an error everywhere. Leg C splits long tokens at every offset and across the 4096-byte refill; leg D compares sen.Parse / ParseReader / Tokenize on every short SEN text.",
          "Trusted: abstract key and snapshot masking (scratch fields), byte-class partition, nesting and chunk-length bounds. SEN-only syntax is a known broken area (wildcard findings); SEN on strict JSON input and the SEN token list of leg C remain sharp.",
          "DESIGN.md §2.2, §3 C03", "bytemc"),
- "C05": (EX, "bounded-exhaustive enumeration of path expressions x documents against an independent reference evaluator (pathref), with earliest-fragment localisation",
+ "C05": (EX, "bounded-exhaustive enumeration of path expressions x documents against an independent reference evaluator (pathref), with earliest-fragment localisation; lists of 66 with pending siblings under paths of three fragments",
          "Every sequence of <=2 (quick) / <=3 (thorough) fragments over an alphabet that puts every index / slice bound in every sign and magnitude relation to the array lengths of the corpus (12 indexes, 392 start x end x step slices, unions, wildcard, descent, 5 filters decided by the scriptref reference) is evaluated by Expr.Get on every document of the corpus and compared with pathref (sequence where order is defined, multiset otherwise); position independence Get(x.f.c) = union of Get(c) over Get(x.f) is checked on the implementation itself. A path ending in a bare descent must return, as a multiset, every node below the start nodes exactly once.",
          "Trusted: pathref + scriptref; open readings enumerated as pathref.Variants; trailing bare descent only no-panic/determinism; map orders repeated.",
          "DESIGN.md §3 C05", "core"),
- "C06": (MC, "explicit-state BFS over all six byte machines (256 bytes per state, reader faults injected at every chunk boundary) + bounded-exhaustive token-sequence / plan / tree enumeration for the recursive parsers",
+ "C06": (MC, "explicit-state BFS over all six byte machines (256 bytes per state, reader faults injected at every chunk boundary) + bounded-exhaustive token-sequence / plan / tree enumeration for the recursive parsers; scale family, every cut of it and the refill sweep under recover",
          "Leg A visits every reachable abstract state of each of the six byte state machines (single- and multi-document) up to the nesting bound and executes all 256 byte values, end of input and one injected reader fault per chunk boundary through the reader and []byte entry points, under recover. Legs B-D enumerate every token sequence up to the length bound into the JSONPath/script parsers, every asm function x arity x argument-kind vector, and every small tree into Unmarshal/Recompose for 26 target types. A panic anywhere is a violation with the input as witness; hangs are caught by the worker watchdog.",
          "Trusted: abstract state key (merged states behave alike for control flow), the token / argument / target alphabets; DESIGN.md §2.5 reading of 'runtime fault' (masked 'runtime error:' error results are counted, not violations).",
          "DESIGN.md §3 C06", "bytemc"),
- "C07": (MC, "exhaustive depth-bounded search over call histories of one long-lived instance, every call re-executed on a fresh instance (two initial states for the parsers; returned values and returned errors held on to); culprit field localised by single-field transplant",
+ "C07": (MC, "exhaustive depth-bounded search over call histories of one long-lived instance, every call re-executed on a fresh instance (two initial states for the parsers; returned values and returned errors held on to); culprit field localised by single-field transplant; documents past the initial capacities (9 members, 18 levels, 47-byte escaped string)",
          "The reused instance (9 instance kinds + the pooled package-level functions of oj and sen) is the state machine and API calls are the alphabet (valid documents, documents aborting in every family of modes, failing readers/writers, option and callback variants, Reuse/OnlyOne/Options changes). Every sequence up to the depth bound is executed; the last call's result (value, error text with line:column, bytes written) must equal the result on a fresh instance with the same exported configuration; earlier returned values are re-inspected after every call and input buffers are overwritten after use. A difference is attributed to the private field whose transplant into a fresh instance reproduces it.",
          "Trusted: the call alphabets; exported configuration fields count as arguments; documented reused buffers (MustJSON, MustSEN, sen.Bytes, pretty Encode) and Reuse maps are exempt; sync.Pool is emptied by two GC cycles.",
          "DESIGN.md §3 C07", "core"),
- "C08": (MC, "stateless schedule enumeration (DFS, iterative preemption bounding) of the real code under a cooperative scheduler hooked into sync.Pool / sync.Mutex via a build overlay (the pool shim also reports an object put back twice); separate free-running -race pass that keeps seeing new struct types",
+ "C08": (MC, "stateless schedule enumeration (DFS, iterative preemption bounding) of the real code under a cooperative scheduler hooked into sync.Pool / sync.Mutex via a build overlay (the pool shim also reports an object put back twice); separate free-running -race pass that keeps seeing new struct types; grown-buffer and typed-container groups; race pass with emptied plan caches for every plan-cache group",
          "For every harness (2 threads x 1-2 calls, 3 threads x 1 call; calls drawn from 7 groups forced to collide on one pool, plan cache or shared jp expression) all schedules with at most P preemptions are executed; scheduling points are Pool.Get/Put, Mutex.Lock/Unlock and the boundary after each call. Every call must return what it returns alone, every returned buffer must still hold its text when the caller looks again after other threads ran, shared expressions / recomposers must be bit-identical afterwards, no deadlock. Data races between scheduling points are left to the race-detector pass over the same call bodies (labelled as such in the evidence). Shared objects are also snapshotted as constructed and must not change when a call is made for the first time.",
          "Trusted: sync.Pool modelled as LIFO+New; atomicity between scheduling points (complemented by -race pass); harness alphabets; -race pass built with checkptr disabled because ojg's unsafe field arithmetic trips it.",
          "DESIGN.md §3 C08", "sched"),
- "C09": (MC, "explicit-state BFS for the state set, then exhaustive whitespace-insertion x offending-byte x chunking x reader-answer enumeration per state, []byte also with a continuation stored behind the slice",
+ "C09": (MC, "explicit-state BFS for the state set, then exhaustive whitespace-insertion x offending-byte x chunking x reader-answer enumeration per state, []byte also with a continuation stored behind the slice; positions past the 4096-byte refill",
          "For the witness of every reachable product state, every placement of whitespace/newline insertions at inter-token positions, every offending byte the reference rejects (and end of input when incomplete), two tails and every chunking (whole, one chunk, byte-wise, every 2-split, split after each newline) is executed on all strict front-ends and the reported line:column compared with the byte-exact expectation computed from the input.",
          "Trusted: jsonref decides the first offending byte; BOM-less inputs; insertion count bound (1 quick, 2 thorough).",
          "DESIGN.md §3 C09", "bytemc"),
